@@ -275,7 +275,14 @@ impl AsRange for DicomTime {
             },
         );
 
-        NaiveTime::from_hms_micro_opt((*h).into(), (*m).into(), (*s).into(), f).context(
+        // chrono represents a leap second (second 60)
+        // as second 59 plus one extra second of microseconds
+        let (sec, micro) = if *s == 60 {
+            (59, f + 1_000_000)
+        } else {
+            (*s as u32, f)
+        };
+        NaiveTime::from_hms_micro_opt((*h).into(), (*m).into(), sec, micro).context(
             InvalidTimeMicroSnafu {
                 h: *h as u32,
                 m: *m as u32,
@@ -296,7 +303,14 @@ impl AsRange for DicomTime {
                 }
             },
         );
-        NaiveTime::from_hms_micro_opt((*h).into(), (*m).into(), (*s).into(), f).context(
+        // chrono represents a leap second (second 60)
+        // as second 59 plus one extra second of microseconds
+        let (sec, micro) = if *s == 60 {
+            (59, f + 1_000_000)
+        } else {
+            (*s as u32, f)
+        };
+        NaiveTime::from_hms_micro_opt((*h).into(), (*m).into(), sec, micro).context(
             InvalidTimeMicroSnafu {
                 h: *h as u32,
                 m: *m as u32,
